@@ -71,7 +71,10 @@ DecCount(i, f, d) == [shown |-> TRUE, ip |-> i, fd |-> d, fp |-> f]
 ChargeTok(q) == [t |-> (IF q > 0 THEN "+" ELSE "-") \o (IF Abs(q) = 1 THEN "" ELSE ToString(Abs(q))), q |-> q]
 \* a unit charge may also be spelled out: "+1" / "-1" (same denotation, same rendering)
 ChargeTokOne(q) == [t |-> (IF q > 0 THEN "+1" ELSE "-1"), q |-> q]
-IsChargeTok(c) == c.q \in Int /\ c.q # 0 /\ (c.t = ChargeTok(c.q).t \/ (Abs(c.q) = 1 /\ c.t = ChargeTokOne(c.q).t))
+\* a charge of zero may be written out ("Fe+0", "Fe-0"): the species is neutral and says so
+ChargeTokZero(sgn) == [t |-> sgn \o "0", q |-> 0]
+IsChargeTok(c) == c.q \in Int /\ IF c.q = 0 THEN c.t \in {"+0", "-0"}
+                                 ELSE (c.t = ChargeTok(c.q).t \/ (Abs(c.q) = 1 /\ c.t = ChargeTokOne(c.q).t))
 
 (* compositions: functions from a set of atomic numbers to rationals *)
 EmptyC == <<>>
@@ -278,6 +281,12 @@ HasCharge == ChargePos # {}
 RECURSIVE PrefixFrom(_)
 PrefixFrom(i) == IF i <= Len(toks) /\ IsK(i, "pre") THEN toks[i].t \o PrefixFrom(i + 1) ELSE ""
 PrefixOf == PrefixFrom(1)
+(* the ignore lists a caller may pass explicitly: exactly the prefixes / the suffix this formula carries.   *)
+(* With them the formula denotes what it denotes under the default lists.  (Nothing is demanded for a      *)
+(* suffix that is NOT listed: the grammar itself knows the state symbols and accepts some such strings.)     *)
+RECURSIVE PrefixListFrom(_)
+PrefixListFrom(i) == IF i <= Len(toks) /\ IsK(i, "pre") THEN <<toks[i].t>> \o PrefixListFrom(i + 1) ELSE <<>>
+PrefixList == PrefixListFrom(1)
 SuffixOf == IF toks # <<>> /\ IsK(Len(toks), "suf") THEN toks[Len(toks)].t ELSE ""
 
 (* design-level invariants *)
@@ -292,7 +301,7 @@ TypeOK == stage \in {"start", "body", "charged", "suffixed", "done"}
 
 ------------------------------------------------------------------------------
 (* presentation tokens (C13): what a faithful rendering shows, independent of the format *)
-SignMag(q) == (IF Abs(q) = 1 THEN "" ELSE ToString(Abs(q))) \o (IF q > 0 THEN "+" ELSE "-")
+SignMag(q) == IF q = 0 THEN "0" ELSE (IF Abs(q) = 1 THEN "" ELSE ToString(Abs(q))) \o (IF q > 0 THEN "+" ELSE "-")
 RenderTok(t) ==
     CASE t.k = "pre"   -> <<[r |-> "Pre", t |-> t.t]>>
       [] t.k = "atom"  -> <<[r |-> "Sym", t |-> Sym[t.z]]>> \o
@@ -341,6 +350,8 @@ CaseRec ==
                      phase_dict |-> PhaseIdxMap(SuffixOf, ("(aq)" :> 0) @@ ("(s)" :> 5) @@ ("(g)" :> 2), 7),
                      \* default_phase_idx = None: an unknown (or missing) suffix must be refused
                      phase_given |-> PhaseIdxGiven(SuffixOf, 4),
+                     prefix_list |-> PrefixList,
+                     suffix_list |-> IF SuffixOf = "" THEN <<>> ELSE <<SuffixOf>>,
                      phase_none_raises |-> PhaseIdx(SuffixOf, <<"(s)", "(l)", "(g)">>) = 0,
                      massnum |-> MassNumOf(total, ChargeOf), massden |-> MassDenOf(total),
                      ntoks |-> Len(toks) ] ]
